@@ -372,3 +372,11 @@ for _p in sorted(_glob.glob(ROOT + '/seeded/*/patch.diff')):
 m('c03-waiting-exit-release-dropped', 'C03', PS, "    def exit(self) -> None:\n        super().exit()\n        # The state can be left while a step is still blocked on the waiting future (the process was failed from\n        # outside the step, e.g. by a scheduled callback that raised): release that step, the process has moved on\n        if not self._waiting_future.done():\n            self._waiting_future.set_result(NULL)\n\n    def interrupt", "    def interrupt", 'fire', 'Process.fail', 'reverts the G19 fix')
 m('c02-waiting-exit-release-dropped', 'C02', PS, "    def exit(self) -> None:\n        super().exit()\n        # The state can be left while a step is still blocked on the waiting future (the process was failed from\n        # outside the step, e.g. by a scheduled callback that raised): release that step, the process has moved on\n        if not self._waiting_future.done():\n            self._waiting_future.set_result(NULL)\n\n    def interrupt", "    def interrupt", 'fire', 'Process.fail', 'reverts the G19 fix')
 m('c03-waiting-exit-release-unguarded', 'C03', PS, "        if not self._waiting_future.done():\n            self._waiting_future.set_result(NULL)\n\n    def interrupt", "        self._waiting_future.set_result(NULL)\n\n    def interrupt", 'fire', 'Waiting.exit', 'the release raises InvalidStateError on the normal way out of WAITING')
+
+# ------------------------------------------------------------------ polarity / presence mutants found by tools/anchor_sweep.py (each confirmed property-breaking by reading)
+m('c09-if-predicate-negated', 'C09', WC, "                if conditional.is_true(self._workchain):\n                    break", "                if not conditional.is_true(self._workchain):\n                    break", 'fire', '_IfStepper.step', 'if_ takes the first branch whose predicate is FALSE')
+m('c04-set-interrupt-action-does-not-install', 'C04', P, "            self._interrupt_action.cancel()\n        self._interrupt_action = new_action\n", "            self._interrupt_action.cancel()\n", 'fire', '_set_interrupt_action', 'a kill requested during a step is never installed')
+m('c11-port-validator-never-asked', 'C11', PO, "            if len(spec[0]) == 1:\n                warnings.warn(VALIDATOR_SIGNATURE_DEPRECATION_WARNING.format(self.validator.__name__))\n                result = self.validator(value)  # type: ignore\n            else:\n                result = self.validator(value, self)\n", "            result = None\n", 'fire', 'Port.validate', 'a configured port validator is never called')
+m('c11-namespace-validator-skipped-when-dynamic', 'C11', PO, "        # Validate the validator after the ports themselves, as it most likely will rely on the port values\n        if self.validator is not None:", "        # Validate the validator after the ports themselves, as it most likely will rely on the port values\n        if self.validator is not None and not self.dynamic:", 'fire', 'PortNamespace.validate', 'the namespace validator is skipped for dynamic namespaces')
+m('c15-namespace-include-skip-negated', 'C15', PO, "                if include and not any(rule == port_name or rule.startswith(prefix) for rule in include):\n                    continue", "                if include and any(rule == port_name or rule.startswith(prefix) for rule in include):\n                    continue", 'fire', 'absorb', 'a namespace is skipped exactly when an include rule names it')
+m('c15-strip-namespace-negated', 'C15', PO, "            if rule.startswith(prefix):\n                stripped.append(rule[len(prefix) :])", "            if not rule.startswith(prefix):\n                stripped.append(rule[len(prefix) :])", 'fire', 'strip_namespace', 'the rules passed down are those that do NOT belong to the namespace')
